@@ -20,6 +20,29 @@ CHECKS = {
         "directories are loadable from cache_odb.",
         "DESIGN.md 4/C06",
     ),
+    "C04": (
+        "fault_enumeration",
+        "property-based testing (Hypothesis) with generated upload-fault / abort plans and a closure invariant monitor",
+        "Generated sets of trees sharing files x closed requests x fault plans (failing id subsets, abort before "
+        "the k-th upload) injected at the final placement call of the destination store; the closure invariant "
+        "(present .dir => every listed id present, parsed from raw bytes) is evaluated after every completed "
+        "upload, after the call, and after a fault-free retry; withheld+failed reporting and retry completion "
+        "are checked too. Random search over plans with shrinking; not exhaustive.",
+        "Faults are injected where uploads into a local store complete (os.replace/rename/link/symlink onto the "
+        "object path); an in-process BaseException models a kill; trusts hashlib and the harness listing parser.",
+        "DESIGN.md 4/C04, 3.5",
+    ),
+    "C11": (
+        "fault_enumeration",
+        "property-based testing (Hypothesis) with generated fault plans against a set-arithmetic reference",
+        "Generated source/destination contents (objects missing, present on both sides, directories with a "
+        "doubly-missing child, corrupt sources under verify) x requests (closed, expanded, shallow) x fault "
+        "plans; TransferResult is compared with new = requested & in-source - in-destination computed from "
+        "direct listings, transferred objects are re-hashed, pre-existing objects must not be re-sent, the "
+        "source must stay byte-identical.",
+        "Same injection point as C04; trusts hashlib and os.walk listings.",
+        "DESIGN.md 4/C11",
+    ),
 }
 
 NOT_YET = "check not built yet in this round; see DESIGN.md section 4 for the planned generated check"
